@@ -10,6 +10,7 @@ package main
 import (
 	"bufio"
 	"bytes"
+	"context"
 	"errors"
 	"fmt"
 	"io"
@@ -72,6 +73,7 @@ type fetch struct {
 	started  time.Time
 	answered int32 // the schedule has let it answer
 	finished int32 // its response was read to the end (or failed)
+	ctx      context.Context
 	paused   int32 // its body stands still in the middle until the schedule says "finish"
 	finish   chan struct{}
 	finOnce  sync.Once
@@ -154,12 +156,26 @@ func (f *failAfter) Read(p []byte) (int, error) {
 }
 
 func (g *gatedOrigin) Do(req *http.Request) (*http.Response, error) {
+	// like a real transport: a request whose context is cancelled (its client went away) is not sent, and one that
+	// waits for its answer is abandoned
+	if err := req.Context().Err(); err != nil {
+		return nil, err
+	}
 	g.mu.Lock()
 	f := &fetch{ord: len(g.fetches), cond: req.Header.Get("If-None-Match") != "" || req.Header.Get("If-Modified-Since") != "", answer: make(chan string, 1), started: time.Now(), finish: make(chan struct{})}
+	f.ctx = req.Context()
 	g.fetches = append(g.fetches, f)
 	g.inflight++
-	if g.inflight > g.maxIn {
-		g.maxIn = g.inflight
+	// fetches in flight at once: those not yet finished whose request has not been cancelled (a cancelled one is being
+	// torn down: its requester has already returned and released the key)
+	live := 0
+	for _, o := range g.fetches {
+		if atomic.LoadInt32(&o.finished) == 0 && o.ctx.Err() == nil {
+			live++
+		}
+	}
+	if live > g.maxIn {
+		g.maxIn = live
 	}
 	g.mu.Unlock()
 	done := func() {
@@ -171,6 +187,10 @@ func (g *gatedOrigin) Do(req *http.Request) (*http.Response, error) {
 	var how string
 	select {
 	case how = <-f.answer:
+	case <-req.Context().Done():
+		atomic.StoreInt32(&f.answered, 1)
+		done()
+		return nil, req.Context().Err()
 	case <-time.After(20 * time.Second):
 		how = "fail"
 	}
@@ -233,6 +253,8 @@ func (c *countingReader) Read(p []byte) (int, error) {
 }
 
 type coClient struct {
+	conn     net.Conn
+	connMu   sync.Mutex
 	origin   string // sent as the Origin header when not empty
 	progress *int64
 	status  int
@@ -256,6 +278,9 @@ func runClientV(addr string, slow bool, wantLen int, c *coClient, inm string) {
 		return
 	}
 	defer conn.Close()
+	c.connMu.Lock()
+	c.conn = conn
+	c.connMu.Unlock()
 	conn.SetDeadline(time.Now().Add(40 * time.Second))
 	extra := ""
 	if c.origin != "" {
@@ -469,6 +494,19 @@ func (c coordCase) Run() (sx.V, error) {
 			mu.Lock()
 			offset += a.Dt
 			mu.Unlock()
+		case "leave":
+			// the client goes away: it closes its connection (the server cancels the request's context)
+			if cl, ok := clients[a.I]; ok {
+				cl.connMu.Lock()
+				if cl.conn != nil {
+					cl.conn.Close()
+				}
+				cl.connMu.Unlock()
+				select {
+				case <-cl.done:
+				case <-time.After(3 * time.Second):
+				}
+			}
 		}
 		settle()
 		outs = append(outs, snapshot())
@@ -521,7 +559,7 @@ func (c coordCase) Run() (sx.V, error) {
 	go runClient(addr, false, g.bodyLen, final)
 	// a fetch the final request starts is answered at once
 	answered := false
-	for k := 0; k < 200; k++ {
+	for k := 0; k < 480; k++ {
 		select {
 		case <-final.done:
 			k = 1000
@@ -542,7 +580,7 @@ func (c coordCase) Run() (sx.V, error) {
 	fin := sx.L(sx.S("pending"))
 	select {
 	case <-final.done:
-		fin = sx.L(sx.S("done"), sx.I(int64(final.status)), sx.S(final.version), sx.B(final.whole), sx.B(took < 3*time.Second))
+		fin = sx.L(sx.S("done"), sx.I(int64(final.status)), sx.S(final.version), sx.B(final.whole), sx.B(took < 10*time.Second))
 	default:
 	}
 	settle()
@@ -573,6 +611,18 @@ func coordPinned() []coordCase {
 		{MaxAge: 60, Vary: true, NoCL: true, Acts: []CoAct{act("arrive", 0, "fast"), act("answer", 0, "cut"), act("arrive", 1, "fast"), act("answer", 1, "new")}},
 		{MaxAge: 60, Vary: true, Acts: []CoAct{act("arrive", 0, "fast"), act("answer", 0, "new"), {Kind: "adv", Dt: 100}, act("arrive", 1, "fast"), act("answer", 1, "cut"),
 			act("arrive", 2, "fast"), act("answer", 2, "new")}},
+		// clients that go away: the one whose fetch is in flight (the others must be served by a new fetch), one that waits
+		// (the others are served by the fetch), both, and with a fetch that then fails
+		{MaxAge: 60, Acts: []CoAct{act("arrive", 0, "fast"), act("arrive", 1, "fast"), act("arrive", 2, "fast"), act("leave", 0, ""), act("answer", 1, "new")}},
+		{MaxAge: 60, Acts: []CoAct{act("arrive", 0, "fast"), act("arrive", 1, "fast"), act("arrive", 2, "fast"), act("leave", 1, ""), act("answer", 0, "new")}},
+		{MaxAge: 60, Acts: []CoAct{act("arrive", 0, "fast"), act("arrive", 1, "fast"), act("arrive", 2, "fast"), act("leave", 1, ""), act("answer", 0, "cut"), act("answer", 1, "new")}},
+		{MaxAge: 60, Acts: []CoAct{act("arrive", 0, "fast"), act("arrive", 1, "fast"), act("arrive", 2, "fast"), act("leave", 1, ""), act("answer", 0, "500"), act("answer", 1, "new")}},
+		{MaxAge: 60, Acts: []CoAct{act("arrive", 0, "fast"), act("arrive", 1, "fast"), act("leave", 0, ""), act("leave", 1, ""), act("arrive", 2, "fast"), act("answer", 1, "new"), act("answer", 2, "new")}},
+		// the only request that waits goes away, and the fetch it waited for comes to nothing: woken, it takes the key and has
+		// nobody to answer - the key must be free for the request that comes next
+		{MaxAge: 60, Acts: []CoAct{act("arrive", 0, "fast"), act("arrive", 1, "fast"), act("leave", 1, ""), act("answer", 0, "cut"), act("arrive", 2, "fast"), act("answer", 1, "new")}},
+		{MaxAge: 60, Acts: []CoAct{act("arrive", 0, "fast"), act("arrive", 1, "fast"), act("leave", 1, ""), act("answer", 0, "500"), act("arrive", 2, "fast"), act("answer", 1, "new")}},
+		{MaxAge: 60, Acts: []CoAct{act("arrive", 0, "fast"), act("arrive", 1, "fast"), act("leave", 1, ""), act("answer", 0, "fail"), act("arrive", 2, "fast"), act("answer", 1, "new")}},
 		// the request that fetches carries a validator that matches what it fetches; the one that waits carries none
 		{MaxAge: 60, Acts: []CoAct{act("arrive", 0, "cond"), act("arrive", 1, "fast"), act("arrive", 2, "fast"), act("answer", 0, "new")}},
 		// requests that arrive while the first one's body is half way in (cache file created, not yet published)
@@ -621,9 +671,9 @@ func coordPinnedChunked() []coordCase {
 }
 
 func genCoord(tier string, rng *Rng) []Case {
-	n := 48
+	n := 80
 	if tier == "thorough" {
-		n = 400
+		n = 450
 	}
 	var out []Case
 	for _, c := range coordPinned() {
@@ -667,7 +717,16 @@ func genCoord(tier string, rng *Rng) []Case {
 				fetchesAnswered++
 			case 7:
 				c.Acts = append(c.Acts, CoAct{Kind: "adv", Dt: int64(rng.Pick2([]int{10, 59, 60, 100}))})
-			case 8, 9:
+			case 8:
+				// a client arrives and goes away again before anything else happens (so that it is known whether it held the
+				// key or waited: which of several woken waiters takes the key is the scheduler's choice)
+				if arrived < 5 && !c.Big && rng.Chance(60, 100) {
+					c.Acts = append(c.Acts, act("arrive", arrived, "fast"), act("leave", arrived, ""))
+					arrived++
+					break
+				}
+				fallthrough
+			case 9:
 				for i := range slow {
 					if !resumed[i] {
 						c.Acts = append(c.Acts, act("resume", i, ""))
